@@ -3,7 +3,7 @@
    carrying the derivation forest on its stack) and spec_events (post-order list of the arrows of a derivation
    tree, each from the first to the last token of its part, an empty part at the token that follows it). *)
 From Coq Require Import List ZArith Bool.
-From TM Require Import Gram.PTables Gram.Run Gram.Validator Gram.Events Gram.Events_proofs Gram.Events_strict Gram.Events_run.
+From TM Require Import Gram.PTables Gram.Run Gram.Validator Gram.Events Gram.Events_proofs Gram.Events_strict Gram.Events_run Gram.Events_loose.
 Import ListNotations.
 Local Open Scope Z_scope.
 
@@ -53,9 +53,59 @@ Theorem C02_wellformedness_is_checkable :
   forall evt rl t, wf_treeb evt rl t = true -> wf_tree evt rl t.
 Proof. exact wf_treeb_sound. Qed.
 
-(* NOT proved (partial): the corresponding exactness statement without fixWhitespace. There a node that ends
-   with an empty symbol extends to the start of the following token (over the whitespace): a known finding; on
-   inputs without whitespace the two coincide, which the correspondence checks on every run. *)
+(* ---- without fixWhitespace ---- *)
+(* Token streams without gaps (each token starts where the previous one ends, end-of-input at the end of the last
+   token): the loop WITHOUT fixWhitespace emits exactly the specification's events too. *)
+Theorem C02_events_without_fixWhitespace_no_gaps :
+  forall m evt rl eoi_off fuel start end_state input c' etop eS b,
+  Forall (fun t => t_sym t <> 0) input ->
+  ordered (map tok_range input) eoi_off ->
+  contiguous (map tok_range input) eoi_off ->
+  xrun fuel m evt false start end_state eoi_off input = (Accept, c') ->
+  xc_stack c' = [etop; eS; b] ->
+  x_tree etop = TLeaf 0 eoi_off eoi_off ->
+  ~ In (eoi_off, eoi_off) (leaves (x_tree eS)) ->
+  wf_reports evt rl (x_tree eS) ->
+  leaves (x_tree eS) = map tok_range input /\
+  xc_events c' = spec_events (arrows_of_ev rl evt) (x_tree eS) eoi_off.
+Proof. exact xrun_events_spec_nogap. Qed.
+
+(* there the "loose" ranges coincide with the strict ones, for every subtree *)
+Theorem C02_no_gaps_ranges_and_events_of_a_subtree :
+  forall evt rl t, wf_reports evt rl t -> forall after, contiguous (leaves t) after ->
+  tree_run false evt t after = (span_of (leaves t) after, spec_events (arrows_of_ev rl evt) t after).
+Proof. exact tree_run_nogap. Qed.
+
+(* In general (every token stream, no orderedness needed) the loop without fixWhitespace gives every subtree the
+   range (first token, loose end) and emits the loose events: each arrow from the first token of its part (an
+   empty part: the following token) to the loose end of the last symbol of the part. *)
+Theorem C02_loose_ranges_and_events_of_a_subtree :
+  forall evt rl t, wf_reports evt rl t -> forall after,
+  tree_run false evt t after = (loose_range t after, loose_events (arrows_of_ev rl evt) t after).
+Proof. exact tree_run_loose. Qed.
+
+(* The loose end: a node ends at the START OF THE FOLLOWING TOKEN exactly when its last symbol is (recursively)
+   empty -- it then extends over the whitespace in between --, and at the end of its last token otherwise.
+   (the known finding "node ranges include trailing whitespace without fixWhitespace", made exact) *)
+Theorem C02_loose_end_characterisation :
+  forall t a,
+  (ends_empty t = true -> lend t a = a) /\
+  (ends_empty t = false -> leaves t <> [] /\ lend t a = snd (span_of (leaves t) a)).
+Proof. exact lend_cases. Qed.
+
+(* and the run-level statement: accepted runs without fixWhitespace emit exactly the loose events of the derivation *)
+Theorem C02_events_without_fixWhitespace :
+  forall m evt rl eoi_off fuel start end_state input c' etop eS b,
+  Forall (fun t => t_sym t <> 0) input ->
+  ordered (map tok_range input) eoi_off ->
+  xrun fuel m evt false start end_state eoi_off input = (Accept, c') ->
+  xc_stack c' = [etop; eS; b] ->
+  x_tree etop = TLeaf 0 eoi_off eoi_off ->
+  ~ In (eoi_off, eoi_off) (leaves (x_tree eS)) ->
+  wf_reports evt rl (x_tree eS) ->
+  leaves (x_tree eS) = map tok_range input /\
+  xc_events c' = loose_events (arrows_of_ev rl evt) (x_tree eS) eoi_off.
+Proof. exact xrun_events_loose. Qed.
 
 (* non-vacuity: textmapper's tables for  N0 : 'a' ('b' 'b' -> T2) N0 -> T1 | %empty -> T3 ;  on "a bb abb " *)
 Definition t0 : default_enc :=
@@ -75,7 +125,32 @@ Example C02_example :
   end.
 Proof. vm_compute. repeat split; reflexivity. Qed.
 
+(* non-vacuity without fixWhitespace: "abbabb" (no gaps) gives the specification's events; "a bb abb " gives the
+   loose ones: both T1 nodes end with the empty N0 and extend to the end of input (9 instead of 8) *)
+Definition input1 : list tok := [mkTok 2 0 1; mkTok 3 1 2; mkTok 3 2 3; mkTok 2 3 4; mkTok 3 4 5; mkTok 3 5 6].
+Example C02_example_without_fixWhitespace :
+  (let '(o, c) := xrun 100 m0 evt0 false 0 6 6 input1 in
+   o = Accept /\
+   xc_events c = [(3, 6, 6); (2, 4, 6); (1, 3, 6); (2, 1, 3); (1, 0, 6)] /\
+   match xc_stack c with
+   | [etop; eS; b] => xc_events c = spec_events (arrows_of_ev (zn [4; 0]) evt0) (x_tree eS) 6
+   | _ => False
+   end) /\
+  (let '(o, c) := xrun 100 m0 evt0 false 0 6 9 input0 in
+   o = Accept /\
+   xc_events c = [(3, 9, 9); (2, 6, 8); (1, 5, 9); (2, 2, 4); (1, 0, 9)] /\
+   match xc_stack c with
+   | [etop; eS; b] => xc_events c = loose_events (arrows_of_ev (zn [4; 0]) evt0) (x_tree eS) 9 /\ ends_empty (x_tree eS) = true
+   | _ => False
+   end).
+Proof. vm_compute. repeat split; reflexivity. Qed.
+
 Print Assumptions C02_events_are_the_postorder_of_the_derivation.
+Print Assumptions C02_events_without_fixWhitespace_no_gaps.
+Print Assumptions C02_no_gaps_ranges_and_events_of_a_subtree.
+Print Assumptions C02_loose_ranges_and_events_of_a_subtree.
+Print Assumptions C02_loose_end_characterisation.
+Print Assumptions C02_events_without_fixWhitespace.
 Print Assumptions C02_ranges_and_events_of_a_subtree.
 Print Assumptions C02_events_follow_the_stack.
 Print Assumptions C02_wellformedness_is_checkable.
